@@ -164,26 +164,39 @@ def run(cfg, fault_at=None, resume_from=None, file_path=None, keep_points=False,
     out.exception = None
     out.result = None
     pk = dict(p["pk"]) if p["pk"] else None
+    import contextlib
+
+    pool_cm = contextlib.nullcontext()
+    if cfg.get("pool"):  # the whole run inside Aspire.enable_pool with a pool that also offers unordered maps
+        from env.targets import AdversarialPool
+
+        out.pool = AdversarialPool()
+        pool_cm = a.enable_pool(out.pool, close_pool=False, parallelize_prior=cfg["pool"] == "prior")
     try:
-        # Driven through init_sampler + sampler.sample: Aspire.sample_posterior consumes
-        # checkpoint_every itself unless a checkpoint_path is given (see C12), so the cadence
-        # would not reach the sampler.  The sample_posterior route is covered by c11_file / C12.
-        smp = a.init_sampler("smc" if sampler == "smc" else "emcee_smc", preconditioning=p["preconditioning"],
-                             preconditioning_kwargs=pk)
-        a._sampler = smp
-        if sampler == "smc":
-            kw["sampler_kwargs"] = {"n_steps": S}
-        else:
-            smp.rng = np.random.default_rng(seed)
-            kw["sampler_kwargs"] = {"nsteps": S, "progress": False}
-        if cfg.get("n_final_steps") is not None:
-            kw["sampler_kwargs"]["n_final_steps"] = cfg["n_final_steps"]  # consumed by SMCSampler.sample, not by the kernel
-        res = smp.sample(N, **kw)
-        out.result = {
-            "final": snapshot_samples(res),
-            "log_evidence": float(tonp(res.log_evidence)),
-            "log_evidence_error": float(tonp(res.log_evidence_error)),
-        }
+        with pool_cm:
+            # Driven through init_sampler + sampler.sample: Aspire.sample_posterior consumes
+            # checkpoint_every itself unless a checkpoint_path is given (see C12), so the cadence
+            # would not reach the sampler.  The sample_posterior route is covered by c11_file / C12.
+            extra = {}
+            if cfg.get("rng_way") == "constructor":  # the user's own generator, handed to the sampler constructor
+                extra["rng"] = np.random.default_rng(seed + 77)
+            smp = a.init_sampler("smc" if sampler == "smc" else "emcee_smc", preconditioning=p["preconditioning"],
+                                 preconditioning_kwargs=pk, **extra)
+            a._sampler = smp
+            if sampler == "smc":
+                kw["sampler_kwargs"] = {"n_steps": S}
+            else:
+                if cfg.get("rng_way") != "constructor":
+                    smp.rng = np.random.default_rng(seed)
+                kw["sampler_kwargs"] = {"nsteps": S, "progress": False}
+            if cfg.get("n_final_steps") is not None:
+                kw["sampler_kwargs"]["n_final_steps"] = cfg["n_final_steps"]  # consumed by SMCSampler.sample, not by the kernel
+            res = smp.sample(N, **kw)
+            out.result = {
+                "final": snapshot_samples(res),
+                "log_evidence": float(tonp(res.log_evidence)),
+                "log_evidence_error": float(tonp(res.log_evidence_error)),
+            }
     except InjectedFault as e:
         out.exception = ("InjectedFault", str(e))
         smp = a.sampler
